@@ -337,25 +337,85 @@ func c15Forward(c *kit.Ctx, k *keyer, rule string, caller *ssa.Function, pname s
 		c.Bad(rule, kit.FuncName(caller)+"/forward "+pname+"->"+callee.Name()+"."+cname, caller.Pos(), "parameter %s of %s or %s of %s not found", pname, caller.Name(), cname, callee.Name())
 		return 0
 	}
-	n := 0
-	for _, fn := range kit.WithAnon(caller) {
-		kit.Instrs(fn, func(ins ssa.Instruction) {
-			cc := kit.CallOf(ins)
-			if cc == nil || cc.StaticCallee() != callee {
-				return
+	// the call may sit in caller itself or in a same-package helper that only
+	// caller (transitively) calls and that receives caller's parameter
+	// unchanged: the argument is followed up through the helper's call sites
+	var isCallerParam func(fn *ssa.Function, v ssa.Value, depth int) bool
+	isCallerParam = func(fn *ssa.Function, v ssa.Value, depth int) bool {
+		if fn == caller {
+			return c15IsParam(v, caller, pi)
+		}
+		if depth <= 0 || fn.Parent() != nil {
+			return false
+		}
+		for j := range fn.Params {
+			if !c15IsParam(v, fn, j) {
+				continue
 			}
-			n++
-			arg := argOf(cc, ci)
-			ok := fn == caller && c15IsParam(arg, caller, pi)
-			c.Check(ok, rule, k.key(fn, "forward "+pname+" to "+callee.Name()), posOf(ins),
-				callee.Name()+"."+cname+" receives the parameter "+pname+" unchanged",
-				callee.Name()+"."+cname+" receives "+kit.Canon(arg).String()+", not the parameter "+pname+" of "+caller.Name())
-		})
+			sites := c.StaticCallSites(fn)
+			if len(sites) == 0 {
+				return false
+			}
+			for _, site := range sites {
+				call, _ := site.(*ssa.Call)
+				if call == nil || j >= len(call.Call.Args) || !isCallerParam(call.Parent(), call.Call.Args[j], depth-1) {
+					return false
+				}
+			}
+			return true
+		}
+		return false
 	}
+	n := 0
+	seen := map[ssa.Instruction]bool{}
+	visit := func(ins ssa.Instruction) {
+		cc := kit.CallOf(ins)
+		if cc == nil || cc.StaticCallee() != callee || seen[ins] {
+			return
+		}
+		seen[ins] = true
+		n++
+		fn := ins.Parent()
+		arg := argOf(cc, ci)
+		ok := isCallerParam(fn, arg, 2)
+		c.Check(ok, rule, k.key(fn, "forward "+pname+" to "+callee.Name()), posOf(ins),
+			callee.Name()+"."+cname+" receives the parameter "+pname+" of "+caller.Name()+" unchanged",
+			callee.Name()+"."+cname+" receives "+kit.Canon(arg).String()+", not the parameter "+pname+" of "+caller.Name())
+	}
+	for _, fn := range kit.WithAnon(caller) {
+		kit.Instrs(fn, visit)
+	}
+	c.InstrsDeep(caller, 2, false, visit)
 	if n == 0 {
-		c.Bad(rule, kit.FuncName(caller)+"/forward "+pname+" to "+callee.Name(), caller.Pos(), "%s does not call %s: the hand-over chain of the peer id is broken or changed", caller.Name(), callee.Name())
+		c.Bad(rule, kit.FuncName(caller)+"/forward "+pname+" to "+callee.Name(), caller.Pos(), "%s does not call %s (nor does a helper it calls): the hand-over chain of the peer id is broken or changed", caller.Name(), callee.Name())
 	}
 	return n
+}
+
+// c15OnlyUsedFrom: fn is root, a closure of root, or a same-package named
+// function every use of which (call, go, defer; never as a value) is inside
+// such a function (depth levels).
+func c15OnlyUsedFrom(c *kit.Ctx, fn, root *ssa.Function, depth int) bool {
+	if fnIn(fn, root) {
+		return true
+	}
+	for fn.Parent() != nil {
+		fn = fn.Parent()
+	}
+	obj, _ := fn.Object().(*types.Func)
+	if obj == nil || depth <= 0 || pkgOf(fn) != pkgOf(root) || len(c.FuncRefs(obj)) > 0 {
+		return false
+	}
+	sites := c.CallSites(obj)
+	if len(sites) == 0 {
+		return false
+	}
+	for _, s := range sites {
+		if !c15OnlyUsedFrom(c, s.Fn, root, depth-1) {
+			return false
+		}
+	}
+	return true
 }
 
 // ---- R15.2 (wiring) every announce request carries the announcerFields snapshot
